@@ -590,7 +590,7 @@ def solve_batch(b, quick):
     if b.get('file') is None:
         return dict(answers=['structural'] * len(b['goals']), wall=0.0, solver='none')
     logic = b.get('logic')
-    cap = b.get('cap') or (60 if quick else 900)
+    cap = b.get('cap') or (60 if quick else 300)
     n = len(b['goals'])
     text = open(b['file']).read()
     wd = os.path.dirname(b['file'])
